@@ -350,11 +350,14 @@ def main():
                       "defaults, RANGES of both signs, BV/UI/LI/MI/PL/FR/FX bounds, RHS on the objective, blank set names, missing final newline; real reader -> "
                       "dump -> equiv_by_name with equal row/column counts; non-trivial = string consumed / file compared; distinct by text")
     ck.cov["rule"] += ("; part 0: extracted LP reader model IO/LpRead.read_lp_res vs mpq_QSget_prob on rendered files, token-mutated files (mostly rejected) and "
-                       "files written by the library: both reject, or both deliver problems equiv_by_name in both directions with equal counts")
+                       "files written by the library: both reject, or both deliver problems equiv_by_name in both directions with equal counts"
+                       "; part 0b: the same for the extracted MPS reader model IO/MpsRead.read_mps_res on independently rendered MPS files, token- and line-mutated files "
+                       "(section keywords, markers, SOS blocks, REFROW / OBJNAME insertions, set names, '$', number-like names, indentation), library-written files, "
+                       "32 hand-written probes of reader quirks (all accepted) and one file per rejection reason of the model (40; the model must name that reason)")
     ck.cov["not_covered"] = ("the file-level statement is proved for the LP reader MODEL and the writer's layout family only (C10_lp_written_file_partial, "
                              "C10_lp_expr_any_wrapping); for the other lexical freedoms (keyword spellings, comments, explicit '+', repeated terms, decimal / exponent "
                              "spellings inside files, several bound statements per line) the model is compared with the library file by file, not proved; "
-                             "the LP reader model is proved total (C10_lp_reader_total) and to depend on the bytes only through the cut lines (C10_lp_reader_cut, C10_lp_reader_bytes); no model of the MPS reader; blanks between 'inf' and '<=' are required by the reader and always rendered; SOS / REFROW not rendered")
+                             "the LP reader model is proved total (C10_lp_reader_total) and to depend on the bytes only through the cut lines (C10_lp_reader_cut, C10_lp_reader_bytes); the MPS reader model (IO/MpsRead.v) is proved total (C10_mps_reader_total), to read bytes as lines (C10_mps_reader_bytes) and to read the writer's layout (C10_mps_written_file_partial = C09_mps_roundtrip); the other lexical freedoms of MPS files are covered by the correspondence reader model = library, not by a theorem; blanks between 'inf' and '<=' are required by the reader and always rendered; SOS / REFROW not rendered")
     ck.assumptions = ["Coq kernel; extraction; OCaml", "renderers of checks/io_gen.py are independent of the Coq development", "harness h_io.c"]
     cleanup_scratch()
     ck.finish(trusted_base=["coqc 8.16.1 kernel", "OCaml extraction", "harness/h_io.c + checks/io_common.py + checks/io_gen.py + checks/C10.py"])
